@@ -542,7 +542,7 @@ func ruleJS(c *Ctx) {
 		var typeStore ssa.Value
 		objTypeCleared, objAllocated, typeFromObj := false, false, false
 		var decoded []ssa.Value
-		var objVal ssa.Value // the fresh object installed in s.Object
+		var objVal ssa.Value  // the fresh object installed in s.Object
 		var objLast ssa.Value // what s.Object holds when the path returns
 		for _, b := range p.Blocks {
 			for _, in := range b.Instrs {
